@@ -3,7 +3,6 @@ package harness
 import (
 	"bytes"
 	"fmt"
-	"io"
 	"log"
 	"net"
 	"sort"
@@ -60,7 +59,7 @@ func receivePath(b []byte) (handled bool) {
 		return false
 	}
 	opts := dhcpmsg.DecodeOptions(m.Options)
-	ylog.New(log.New(io.Discard, "", 0), *m, opts).Printf("%d", 1) // first thing a handler does
+	ylog.New(log.New(logSink{}, "", 0), *m, opts).Printf("%d", 1) // first thing a handler does
 	_ = fmt.Sprintf("%s %v %v", m.ClientMAC, opts.RequestedIP, net.IP(opts.ServerIdentifier))
 	return v4.Protocol == 0x11 && m.Op == dhcpmsg.OpRequest
 }
